@@ -2,6 +2,7 @@ use crate::Prop;
 pub mod c01;
 pub mod c02;
 pub mod memcheck;
+pub mod miri;
 pub mod c03;
 pub mod c04;
 pub mod c05;
